@@ -269,6 +269,36 @@ def serialiser_structure(chk, prog):
             chk.ob("R6.serialiser", fn, "object keys are escaped with string_to_string", bool(ks), "")
 
 
+def number_output(chk, prog):
+    """R7: a Number is written with f64's own Display (shortest representation that parses back): the serialiser's
+    call graph contains no float->integer cast and no fixed-precision formatting of the number."""
+    roots = ["humphrey_json::serialize::<impl humphrey_json::value::Value>::serialize", "humphrey_json::serialize::<impl humphrey_json::value::Value>::serialize_pretty"]
+    found = [r for r in roots if r in prog.bodies]
+    chk.floor("serialiser entry points", len(found), 2)
+    reach_ = prog.reach_bodies(found)
+    casts = 0
+    tos = 0
+    for p in sorted(reach_):
+        b = prog.bodies[p]
+        for blk_i, blk in enumerate(b.blocks):
+            for s in blk["stmts"]:
+                rv = s.get("rv")
+                if rv and rv.get("k") == "cast" and rv.get("ck") in ("FloatToInt", "FloatToFloat"):
+                    casts += 1
+                    chk.ob("R7.number_output", p, f"{rv['ck']} cast in the serialiser", False,
+                           f"a number is converted with `as {rv.get('ty')}` on its way to the output: values outside that type's exact range no longer "
+                           f"serialise to text that parses back to the same f64", where=f"{b.file}:{s.get('line')}")
+        for blk, t in b.calls_to(r"ToString>?::to_string$"):
+            if (t.get("gargs") or [""])[0] == "f64" or "f64" in (t.get("callee_args") or ""):
+                tos += 1
+                d = core.describe(prog, b, t["args"][0])
+                pure = panics._strip(d)
+                ok = pure[0] in ("field", "param", "local", "multi", "upvar") or (pure[0] == "field")
+                chk.ob("R7.number_output", p, "Number -> <f64 as ToString>::to_string(the stored value)", ok, f"to_string is applied to {panics.short_desc(d)}", where=b.where(blk))
+    chk.floor("f64 to_string sites in the serialiser", tos, 1)
+    chk.ob("R7.number_output", "humphrey_json::serialize", "no float->int / float narrowing casts reachable from serialize", casts == 0, "")
+
+
 def run(chk):
     prog = chk.use(core.load("A", fresh=(chk.tier == "thorough")))
     chk.explanation = (
@@ -285,3 +315,4 @@ def run(chk):
     number_gates(chk, prog)
     depth_pairing(chk, prog)
     serialiser_structure(chk, prog)
+    number_output(chk, prog)
